@@ -636,6 +636,7 @@ def _run_plan(plan, pristine_fp, yatiml_dir, yaml_dir, mount, sched, profile=Fal
             # differs from the previous outcome of the same operation, so that the
             # harness itself retains nothing between calls (a caller looping over
             # load() does not either, and address re-use patterns stay like theirs)
+            env.retained = None     # (nothing is kept in the tight loop, exceptions included)
             last = {}
             for rec in history:
                 if rec['t'] == tid:
